@@ -69,7 +69,7 @@ func main() {
 		// seconds ends the child with exit code 4; the supervisor then re-runs the
 		// batch in trace mode, where a non-returning call is pinned. Not used in
 		// trace mode itself (the supervisor watches the trace file there).
-		if *trace == "" {
+		if *trace == "" && !b.Slow {
 			go func() {
 				last, since := c.Progress(), time.Now()
 				for {
